@@ -640,6 +640,14 @@ func (t *trans) call(x *cCall) (string, vtype) {
 		a, _ := arg(0)
 		b, _ := arg(1)
 		return fmt.Sprintf("(str.suffixof %s %s)", a, b), boolT
+	case "isElem": // the address is that of a slice/array element (as opposed to a struct field or a whole object)
+		a, _ := arg(0)
+		return fmt.Sprintf("(is_elem %s)", a), boolT
+	case "addrof":
+		if a, _, ok := t.place(x.Args[0]); ok {
+			return a, vtype{"Ref", nil}
+		}
+		t.fail("addrof: not an addressable expression")
 	case "str_prefix":
 		a, _ := arg(0)
 		b, _ := arg(1)
